@@ -338,6 +338,27 @@ void gen(Rng& r, Plan& p, const GenParams& gp) {
   p.cfg["epoch0"] = ep[r.below(7)];
   p.cfg["end_clear"] = r.chance(1, 5);
   p.cfg["max_idle_jumps"] = 3000;
+  if (!c02 && r.chance(1, 10)) {
+    // targeted shape: one non-concurrent producer whose try_push_n batches wrap
+    // the ring while two consumers finish out of order (a consumer still sits in
+    // a tail slot when the head slots are free again)
+    disc = 1; p.cfg["disc"] = 1; p.cfg["pushC"] = 0; p.cfg["popC"] = 1; p.cfg["comp"] = 0;
+    p.cfg["pushW"] = 0; p.cfg["popW"] = r.chance(1, 2); p.cfg["pushK"] = 1; p.cfg["popK"] = r.chance(1, 2);
+    int64_t cp = r.chance(1, 2) ? 2 : 4;
+    p.cfg["cap"] = cp; p.cfg["epoch0"] = 0; p.cfg["sp_thread"] = 1; p.cfg["sc_thread"] = -1;
+    p.threads.resize(4);
+    int opid = 0;
+    auto add = [&](int t, int kind, int64_t n) { Op o; o.kind = kind; o.a = n; o.id = opid++; p.threads[(size_t)t].push_back(o); };
+    int lead = (int)r.range(1, cp + 1);
+    int64_t pushed = 0;
+    for (int i = 0; i < lead; i++) { add(1, K_PUSH, 1); pushed++; }
+    int ntry = (int)r.range(2, 4);
+    for (int i = 0; i < ntry; i++) add(1, K_TRY_PUSH_N, cp);
+    // consumers only demand what the blocking pushes guarantee
+    int64_t demand = 0;
+    for (int t = 2; t <= 3; t++) { int k = (int)r.range(0, 2); for (int i = 0; i < k && demand < pushed; i++) { add(t, K_POP, 1); demand++; } add(t, K_TRY_POP, 1); add(t, K_TRY_POP, 1); }
+    return;
+  }
   int nthreads = disc == 3 ? 2 : (int)r.range(2, gp.thorough ? 5 : 4);
   int maxops = gp.thorough ? 8 : 6;
   p.threads.resize((size_t)nthreads + 1);  // thread 0 = main (no ops)
@@ -372,9 +393,11 @@ void gen(Rng& r, Plan& p, const GenParams& gp) {
     for (int t = 1; t <= producers; t++) {
       int nops = (int)r.range(1, maxops);
       for (int i = 0; i < nops; i++) {
-        static const int ks[] = {K_PUSH, K_PUSH_N, K_PUSH_N, K_TRY_PUSH, K_TRY_PUSH_N, K_PUSH_V, K_PUSH_IT};
-        int k = ks[r.below(7)];
+        static const int ks[] = {K_PUSH, K_PUSH_N, K_PUSH_N, K_TRY_PUSH, K_TRY_PUSH_N, K_TRY_PUSH_N, K_TRY_PUSH_N, K_PUSH_V, K_PUSH_IT};
+        int k = ks[r.below(9)];
         int64_t n = (k == K_PUSH || k == K_TRY_PUSH || k == K_PUSH_V) ? 1 : batch();
+        // non-concurrent try_push_n with a batch that wraps the ring while a consumer still sits in a tail slot
+        if (k == K_TRY_PUSH_N && r.chance(1, 2)) n = (int64_t)cap;
         bool blocking = is_blocking(k);
         // single-consumer side cannot be helped by main: keep producers satisfiable
         if (blocking) G += n; else Pt += n;
@@ -384,8 +407,8 @@ void gen(Rng& r, Plan& p, const GenParams& gp) {
     for (int t = producers + 1; t <= producers + consumers; t++) {
       int nops = (int)r.range(1, maxops);
       for (int i = 0; i < nops; i++) {
-        static const int ks[] = {K_POP, K_POP_N, K_POP_N, K_TRY_POP, K_TRY_POP_N, K_POP_V, K_POP_IT, K_XPOP, K_XPOP};
-        int k = ks[r.below(9)];
+        static const int ks[] = {K_POP, K_POP_N, K_POP_N, K_TRY_POP, K_TRY_POP_N, K_TRY_POP_N, K_POP_V, K_POP_IT, K_XPOP, K_XPOP};
+        int k = ks[r.below(10)];
         if (k == K_XPOP && !(disc == 2 || disc == 3)) k = K_TRY_POP_N;
         int64_t n = (k == K_POP || k == K_TRY_POP || k == K_POP_V) ? 1 : batch();
         bool blocking = is_blocking(k);
